@@ -50,9 +50,10 @@ int_t __wrap_clacon_(int_t *n, void *v, void *x, void *est, int_t *kase) { int_t
 int_t __wrap_zlacon_(int_t *n, void *v, void *x, void *est, int_t *kase) { int_t k = *kase, r; long q = lacon_neq(*n, x, 1, 1, k); r = __real_zlacon_(n, v, x, est, kase); lacon_after(*n, x, 1, 1, k, *kase); lacon_ev(*n, k, *kase, q); return r; }
 #define WRAP_TRSV(P) \
 extern int_t __real_sp_##P##trsv(char *, char *, char *, void *, void *, void *, int_t *) ; \
+extern int_t slu_sv_sp_##P##trsv(char *, char *, char *, void *, void *, void *, int_t *) ; \
 int_t __wrap_sp_##P##trsv(char *uplo, char *trans, char *diag, void *L, void *U, void *x, int_t *info) \
 { long a[2]; a[0] = (uplo[0] == 'L' || uplo[0] == 'l') ? 1 : 2; a[1] = (trans[0] == 'N' || trans[0] == 'n') ? 0 : ((trans[0] == 'T' || trans[0] == 't') ? 1 : 2); \
-  vrt_emit("Trsv", -1, 2, a); return __real_sp_##P##trsv(uplo, trans, diag, L, U, x, info); }
+  vrt_emit("Trsv", -1, 2, a); return slu_sv_sp_##P##trsv(uplo, trans, diag, L, U, x, info); }
 WRAP_TRSV(s) WRAP_TRSV(d) WRAP_TRSV(c) WRAP_TRSV(z)
 #define WRAP_GSCON(P, RT) \
 extern void __real_##P##gscon(char *, void *, void *, RT, RT *, int_t *) ; \
@@ -73,8 +74,9 @@ void __wrap_##P##gsrfs(trans_t trans, SuperMatrix *A, SuperMatrix *L, SuperMatri
 { long a[3]; a[0] = (long) trans; a[1] = B ? B->ncol : -1; a[2] = A ? A->nrow : -1; vrt_emit("RfsBegin", -1, 3, a); \
   __real_##P##gsrfs(trans, A, L, U, perm_r, perm_c, equed, R, C, B, X, ferr, berr, G, info); a[1] = *info; vrt_emit("RfsEnd", -1, 2, a); } \
 extern void __real_##P##gstrs(trans_t, SuperMatrix *, SuperMatrix *, int_t *, int_t *, SuperMatrix *, Gstat_t *, int_t *); \
+extern void slu_sv_##P##gstrs(trans_t, SuperMatrix *, SuperMatrix *, int_t *, int_t *, SuperMatrix *, Gstat_t *, int_t *); \
 void __wrap_##P##gstrs(trans_t trans, SuperMatrix *L, SuperMatrix *U, int_t *perm_r, int_t *perm_c, SuperMatrix *B, Gstat_t *G, int_t *info) \
-{ long a[2]; a[0] = (long) trans; a[1] = B ? B->ncol : -1; vrt_emit("Gstrs", -1, 2, a); __real_##P##gstrs(trans, L, U, perm_r, perm_c, B, G, info); }
+{ long a[2]; a[0] = (long) trans; a[1] = B ? B->ncol : -1; vrt_emit("Gstrs", -1, 2, a); slu_sv_##P##gstrs(trans, L, U, perm_r, perm_c, B, G, info); }
 WRAP_GSRFS(s, float) WRAP_GSRFS(d, double) WRAP_GSRFS(c, float) WRAP_GSRFS(z, double)
 extern int_t __real_sp_sgemv(char *, float, SuperMatrix *, float *, int_t, float, float *, int_t);
 int_t __wrap_sp_sgemv(char *t, float al, SuperMatrix *A, float *x, int_t ix, float be, float *y, int_t iy) { long a[1]; a[0] = tcode(t[0]); vrt_emit("Gemv", -1, 1, a); return __real_sp_sgemv(t, al, A, x, ix, be, y, iy); }
@@ -84,3 +86,67 @@ extern int_t __real_sp_cgemv(char *, complex, SuperMatrix *, complex *, int_t, c
 int_t __wrap_sp_cgemv(char *t, complex al, SuperMatrix *A, complex *x, int_t ix, complex be, complex *y, int_t iy) { long a[1]; a[0] = tcode(t[0]); vrt_emit("Gemv", -1, 1, a); return __real_sp_cgemv(t, al, A, x, ix, be, y, iy); }
 extern int_t __real_sp_zgemv(char *, doublecomplex, SuperMatrix *, doublecomplex *, int_t, doublecomplex, doublecomplex *, int_t);
 int_t __wrap_sp_zgemv(char *t, doublecomplex al, SuperMatrix *A, doublecomplex *x, int_t ix, doublecomplex be, doublecomplex *y, int_t iy) { long a[1]; a[0] = tcode(t[0]); vrt_emit("Gemv", -1, 1, a); return __real_sp_zgemv(t, al, A, x, ix, be, y, iy); }
+
+/* ------------------------------------------------------------------ triangular solves (?gstrs, sp_?trsv): SluSolve.tla
+ * SvBegin(kind, a1, a2, a3, nrhs, ldb, n | fsupc nsupc nsupr luptr per supernode, in number order) ... SvEnd bracket one ?gstrs
+ * (kind 0: a1 = trans) or one sp_?trsv (kind 1: a1 = uplo 1 L / 2 U, a2 = trans, a3 = 1 unit diagonal).  Inside, every dense
+ * kernel the sweep hands a supernode to is recorded as SvCall(code, a, b, c, offset of the matrix block in the values of L,
+ * offset of the vector in B / x): 1 ?lsolve(ldm, ncol), 2 ?matvec(ldm, nrow, ncol), 3 ?usolve(ldm, ncol), 4 sp_?trsv called by
+ * ?gstrs (uplo, trans, diag), 5 the BLAS ?trsv_ of the transposed sweeps (100 uplo + 10 trans + diag, n, lda).  The kernels are
+ * also used by the factorization (other threads): the bracket is thread-local. */
+extern void vrt_emit_list(const char *name, int p, int nargs, const long *args, const long *list, long nlist);
+static __thread int sv_depth = 0;
+static __thread const char *sv_M = 0, *sv_x = 0;
+static __thread long sv_es = 1;
+static int sv_begin(long kind, long a1, long a2, long a3, long nrhs, long ldb, SuperMatrix *L, const void *x, long es)
+{
+    SCPformat *Ls; long a[7], k, ns;
+    if (!L || L->Stype != SLU_SCP || !L->Store || L->nrow != L->ncol || L->nrow < 0) return 0;
+    Ls = (SCPformat *) L->Store;
+    ns = L->nrow > 0 ? Ls->nsuper + 1 : 0;
+    if (ns < 0 || ns > L->nrow) return 0;
+    if (ns > 20000) return 0;
+    { long l[4 * ns + 1];     /* not malloc: the harness counts the library's requests */
+    for (k = 0; k < ns; ++k) {
+	long fs = Ls->sup_to_colbeg[k];
+	l[4 * k] = fs; l[4 * k + 1] = Ls->sup_to_colend[k] - fs;
+	if (fs < 0 || fs >= L->nrow) { l[4 * k + 2] = -1; l[4 * k + 3] = -1; continue; }
+	l[4 * k + 2] = Ls->rowind_colend[fs] - Ls->rowind_colbeg[fs]; l[4 * k + 3] = Ls->nzval_colbeg[fs];
+    }
+    a[0] = kind; a[1] = a1; a[2] = a2; a[3] = a3; a[4] = nrhs; a[5] = ldb; a[6] = L->nrow;
+    vrt_emit_list("SvBegin", -1, 7, a, l, 4 * ns); }
+    sv_M = (const char *) Ls->nzval; sv_x = (const char *) x; sv_es = es;
+    return 1;
+}
+static void sv_call(long code, long a, long b, long c, const void *M, const void *x)
+{
+    long v[6]; v[0] = code; v[1] = a; v[2] = b; v[3] = c;
+    v[4] = M ? (long) (((const char *) M - sv_M) / sv_es) : 0; v[5] = (long) (((const char *) x - sv_x) / sv_es);
+    vrt_emit("SvCall", -1, 6, v);
+}
+static long ucode(int c) { return (c == 'L' || c == 'l') ? 1 : 2; }
+static long dcode(int c) { return (c == 'U' || c == 'u') ? 1 : 0; }
+#define WRAP_SOLVE(P, ES) \
+extern void __real_##P##lsolve(int_t, int_t, void *, void *); \
+void __wrap_##P##lsolve(int_t ldm, int_t ncol, void *M, void *rhs) { if (sv_depth) sv_call(1, ldm, ncol, 0, M, rhs); __real_##P##lsolve(ldm, ncol, M, rhs); } \
+extern void __real_##P##usolve(int_t, int_t, void *, void *); \
+void __wrap_##P##usolve(int_t ldm, int_t ncol, void *M, void *rhs) { if (sv_depth) sv_call(3, ldm, ncol, 0, M, rhs); __real_##P##usolve(ldm, ncol, M, rhs); } \
+extern void __real_##P##matvec(int_t, int_t, int_t, void *, void *, void *); \
+void __wrap_##P##matvec(int_t ldm, int_t nrow, int_t ncol, void *M, void *vec, void *Mxvec) { if (sv_depth) sv_call(2, ldm, nrow, ncol, M, vec); __real_##P##matvec(ldm, nrow, ncol, M, vec, Mxvec); } \
+extern int __real_##P##trsv_(char *, char *, char *, int *, void *, int *, void *, int *); \
+int __wrap_##P##trsv_(char *uplo, char *trans, char *diag, int *n, void *a, int *lda, void *x, int *incx) \
+{ if (sv_depth) sv_call(5, 100 * ucode(uplo[0]) + 10 * tcode(trans[0]) + dcode(diag[0]), *n, *lda, a, x); return __real_##P##trsv_(uplo, trans, diag, n, a, lda, x, incx); } \
+int_t slu_sv_sp_##P##trsv(char *uplo, char *trans, char *diag, void *L, void *U, void *x, int_t *info) \
+{ int d0 = sv_depth, on; const char *M0 = sv_M, *x0 = sv_x; long es0 = sv_es; int_t r; \
+  if (d0) sv_call(4, ucode(uplo[0]), tcode(trans[0]), dcode(diag[0]), 0, x); \
+  on = sv_begin(1, ucode(uplo[0]), tcode(trans[0]), dcode(diag[0]), 1, 0, (SuperMatrix *) L, x, ES); if (on) sv_depth = 2; \
+  r = __real_sp_##P##trsv(uplo, trans, diag, L, U, x, info); \
+  if (on) { long e[1]; e[0] = *info; vrt_emit("SvEnd", -1, 1, e); } sv_depth = d0; sv_M = M0; sv_x = x0; sv_es = es0; return r; } \
+void slu_sv_##P##gstrs(trans_t trans, SuperMatrix *L, SuperMatrix *U, int_t *perm_r, int_t *perm_c, SuperMatrix *B, Gstat_t *G, int_t *info) \
+{ int on = 0; DNformat *Bs = (B && B->Stype == SLU_DN) ? (DNformat *) B->Store : 0; \
+  if (Bs && (trans == NOTRANS || trans == TRANS || trans == CONJ) && B->ncol >= 0 && L && Bs->lda >= L->nrow && U && U->nrow == U->ncol && U->nrow == L->nrow) \
+      on = sv_begin(0, (long) trans, 0, 0, B->ncol, Bs->lda, L, Bs->nzval, ES); \
+  if (on) sv_depth = 1; \
+  __real_##P##gstrs(trans, L, U, perm_r, perm_c, B, G, info); \
+  if (on) { long e[1]; e[0] = *info; vrt_emit("SvEnd", -1, 1, e); } sv_depth = 0; }
+WRAP_SOLVE(s, 4) WRAP_SOLVE(d, 8) WRAP_SOLVE(c, 8) WRAP_SOLVE(z, 16)
